@@ -13,9 +13,9 @@ EXPLANATION = (
     "sharp s and theta variants, internal blank runs, duplicates) chosen by a symbolic index; destination/title/text carry free characters."
 )
 BOUNDS = {
-    "quick": "2 definitions: first label any of the 12-label menu, second label and the use from a 4-label sub-menu (one per class; symbolic indices), 1 free character in the title; "
+    "quick": "2 definitions and one use with labels chosen by the solver from the 12-label menu (all 1728 combinations, concrete title); 1 free character in the title on two fixed label layouts; "
              "reference-vs-inline form: one free character at a time in destination (ASCII + 7 non-ASCII representatives), title, text; links and images",
-    "thorough": "2 definitions with all labels/uses from the full menu and a free character in the link text; 3 definitions with the sub-menu; forms with two free characters at a time, both presets",
+    "thorough": "3 definitions from the full menu; free characters in title and link text on the fixed layouts; forms with two free characters at a time, both presets",
 }
 OUTSIDE = ("label matching as Unicode case folding for ALL labels is not decided: symbolic lower()/upper() costs ~27 s per path (C-level Unicode tables), the menu "
            "exercises it; definitions spanning more lines than the scaffolds")
@@ -31,7 +31,8 @@ CLASS = {"foo": 0, "FOO": 0, "Foo": 0, "ß": 1, "ẞ": 1, "SS": 1, "ϑ": 2, "θ"
 def _free(params):
     fr = [Free(f"l{i}", kind="int", lo=0, hi=len(LABELS) - 1) for i in range(params["ndef"])]
     fr.append(Free("use", kind="int", lo=0, hi=len(LABELS) - 1))
-    fr.append(Free("t", exclude="\r\0\n"))
+    if params.get("free_title"):
+        fr.append(Free("t", exclude="\r\0\n"))
     if params.get("free_text"):
         fr.append(Free("x", exclude="\r\0\n"))
     # quick tier: later definitions and the use come from a 4-label sub-menu (one label of each class)
@@ -50,7 +51,14 @@ def _run(params, values):
     md = get_md(params["cfg"])
     labs = [LABELS[realize(values[f"l{i}"])] for i in range(params["ndef"])]
     use = LABELS[realize(values["use"])]
-    t = values["t"]
+    if not params.get("free_title") and not params.get("free_text"):
+        # everything is concrete once the label indices are realised: run the real code at native speed
+        with no_tracing():
+            return _run_body(params, md, labs, use, "T", values)
+    return _run_body(params, md, labs, use, values.get("t", "T"), values)
+
+
+def _run_body(params, md, labs, use, t, values):
     if t == "'" or t == "\\":
         return [], "assume: title delimiter/escape"
     r_doc = ""
@@ -137,8 +145,8 @@ def _form_run(params, values):
     md = get_md(params["cfg"])
     d, t, x = values.get("d", "q"), values.get("t", "u"), values.get("x", "y")
     # keep the free characters from changing the construct itself (decided on the symbolic values)
-    if d in " \t<>()\\" or t in "\"\\" or x in "[]\\!`*_<&" or d == "" :
-        return [], "assume: delimiter character"
+    if d in " \t<>()\\" or t in "\"\\" or x in "[]\\!`*_<&" or d == "" or ord(d) < 33 or ord(d) == 127:
+        return [], "assume: delimiter or control character (not allowed in a bare destination)"
     bang = "!" if params["image"] else ""
     inline_src = bang + "[a" + x + "](/p" + d + " \"T" + t + "\")\n"
     ref_src = bang + "[a" + x + "][r]\n\n[r]: /p" + d + " \"T" + t + "\"\n"
@@ -172,18 +180,22 @@ HARNESSES = {
 
 def jobs(tier, seed):
     jobs = []
-    if tier == "quick":
-        for l0 in range(len(LABELS)):
-            jobs.append({"harness": "seeded", "params": {"cfg": CM, "ndef": 2, "l0": l0, "submenu": [1, 3, 7, 10]}, "weight": 10,
-                         "cpu_cap": 3000, "wall_cap": 4000})
-        for image in (False, True):
+    nd = 2 if tier == "quick" else 3
+    for l0 in range(len(LABELS)):
+        # labels (all definitions and the use) chosen by the solver from the full menu; concrete title/text
+        jobs.append({"harness": "seeded", "params": {"cfg": CM, "ndef": nd, "l0": l0}, "weight": 4, "cpu_cap": 3000, "wall_cap": 4000})
+    # free characters with a few fixed label layouts
+    for l0, sub in ((0, [1, 3]), (4, [5, 10])):
+        jobs.append({"harness": "seeded", "params": {"cfg": CM, "ndef": 2, "l0": l0, "submenu": sub, "free_title": True}, "weight": 20,
+                     "cpu_cap": 3000, "wall_cap": 4000})
+        if tier == "thorough":
+            jobs.append({"harness": "seeded", "params": {"cfg": CM, "ndef": 2, "l0": l0, "submenu": sub, "free_title": True, "free_text": True},
+                         "weight": 60, "cpu_cap": 12000, "wall_cap": 13000})
+    for image in (False, True):
+        if tier == "quick":
             for vary in ("d", "t", "x"):
                 jobs.append({"harness": "forms", "params": {"cfg": CM, "image": image, "vary": vary}, "weight": 6, "cpu_cap": 3000, "wall_cap": 4000})
-    else:
-        for l0 in range(len(LABELS)):
-            jobs.append({"harness": "seeded", "params": {"cfg": CM, "ndef": 2, "l0": l0, "free_text": True}, "weight": 30, "cpu_cap": 9000, "wall_cap": 10000})
-            jobs.append({"harness": "seeded", "params": {"cfg": CM, "ndef": 3, "l0": l0, "submenu": [1, 3, 7, 10]}, "weight": 30, "cpu_cap": 9000, "wall_cap": 10000})
-        for image in (False, True):
+        else:
             for cfg in (CM, JS):
                 for vary in ("dt", "tx", "dx"):
                     jobs.append({"harness": "forms", "params": {"cfg": cfg, "image": image, "vary": vary}, "weight": 30, "cpu_cap": 9000, "wall_cap": 10000})
